@@ -113,6 +113,10 @@ def run(warn_err: bool, ops):
     try:
         for i, op in enumerate(ops):
             kind = op[0]
+            if kind == 'warn':               # the warnings filter changes between two calls of one history
+                warn_err = op[1] == '1'
+                out.append([A('ok'), observe()])
+                continue
             cls = classes[int(op[1])]
             ns = ns_of(op[2])
             entry = type(f'Entry{i}', (optree.GetItemEntry,), {})
